@@ -88,6 +88,12 @@ def main():
         chk.violation({"input": m["input"][:120] + "... (%d bytes)" % len(m["input"]), "what": m["what"], "impl": m["impl"]})
     chk.cov["evaluations"] += sres["inputs"]
     chk.notes["expensive_inputs_outside_the_model"] = sres["byacc"]
+    # many distinct expressions in one process (whatever is remembered between creations must not change the n-th result)
+    mres = json.loads(vlib.harness(["many", "-n", "300" if quick else "3000"]).stdout)
+    vlib.log("c10: %d creations of distinct expressions in one process: %d problems" % (mres["runs"], len(mres["bad"])))
+    for m in mres["bad"]:
+        chk.violation({"input": m["expr"], "what": m["what"], "impl": ""})
+    chk.cov["evaluations"] += mres["runs"]
     # accept / reject agreement with the specification is C15's verdict; here only a diagnostic
     chk.notes["language_mismatches (diagnostic, C15's verdict)"] = len(res["language"])
     execs = fuzz(chk, 20 if quick else 600)
